@@ -89,10 +89,20 @@ func (c18Engine) Gen(job *Job) *Case {
 		} else {
 			pi := r.Intn(np)
 			bop := TaskOp{Kind: "build", Proj: pi}
-			if r.Chance(1, 5) {
-				// this task's build bans a directive kind; the others must not notice
-				kw := []string{"MACRO", "PASTE", "TAG", "ENUM", "Description", "Query", "SERVER", "Headers", "INFO"}
+			if r.Chance(1, 4) {
+				// this task's build bans a directive kind; the others must not notice. The keywords
+				// come from a short list, so that tasks share option values (one value per keyword per
+				// process, see bannedOption); a build may ban two kinds - two option values
+				kw := []string{"TAG", "ENUM", "Description", "SERVER"}
+				if r.Chance(1, 3) {
+					kw = []string{"MACRO", "PASTE", "TAG", "ENUM", "Description", "Query", "SERVER", "Headers", "INFO"}
+				}
 				bop.Banned = []string{kw[r.Intn(len(kw))]}
+				if r.Chance(1, 2) {
+					if k2 := kw[r.Intn(len(kw))]; k2 != bop.Banned[0] {
+						bop.Banned = append(bop.Banned, k2)
+					}
+				}
 			}
 			tp.Ops = append(tp.Ops, bop)
 			for i := 0; i < r.Range(0, 3); i++ {
